@@ -18,7 +18,7 @@ Definition ttype_of_code (c : N) : ttype :=
 Inductive fmtcase :=
 (* Fmt(input): accepted with this output, or rejected *)
 | CFmt (input : list N) (ok : bool) (out : list N)
-(* FmtDiffs(input): 0 = edits, 1 = error, 2 = panic; and genlsp's TextEdits agree with the edits *)
+(* FmtDiffs(input): 0 = edits, 1 = error, 2 = panic.  genlsp's TextEdits are compared with the edits by the Go oracle only (c19.go), not here *)
 | CDiffs (input : list N) (kind : N) (edits : list oedit)
 (* tokenSource(Token{Type, Lit}) *)
 | CTokSrc (code : N) (lit : list N) (out : list N)
